@@ -149,6 +149,54 @@ def run(chk):
                               "before the label, the label no longer lies on a character boundary / covers the wrong text" % tainted[0], detail=d2, loc=d2["at"])
     chk.extra["span_new_sites"] = n_sites
 
+    rid = "R33d"
+    chk.rule(rid, "lexer Error::offset_by shifts every position field of every variant by `offset` (nested-lexer errors point into the whole source)", floor=7)
+    OFFSET_BY = "parser::lex::Error::offset_by"
+    LEX_ERR = "parser::lex::Error"
+    ob = chk.anchor(OFFSET_BY, rid)
+    adt = facts.adts.get(LEX_ERR)
+    if ob is not None and adt:
+        from varflow import VarFlow, MOVED
+        pos_fields = {}
+        for v in adt["variants"]:
+            pf = [f for f, ty in zip(v["fields"], v.get("ftys", [])) if ty == "usize" or ty.endswith("span::Span")]
+            pos_fields[v["name"]] = pf
+        shifted = {}       # variant -> set(fields shifted)
+        for bi, si, s in ob.iter_stmts():
+            rv = s["rv"]
+            if rv["k"] == "agg" and rv.get("adt") == LEX_ERR:
+                for nme, op in zip(rv.get("fnames", []), rv["ops"]):
+                    tr = expr_of(ob, op)
+
+                    def has_offset(e):
+                        if e[0] == "Add":
+                            return any(x == ("arg", 2) or has_offset(x) for x in e[1:3])
+                        if e[0] == "call":
+                            return any(has_offset(a) for a in e[2])
+                        return False
+                    if has_offset(tr):
+                        shifted.setdefault(rv["variant"], set()).add(nme)
+        # variants handed back unchanged
+        vf = VarFlow(facts, ob, extra_locals=[1])
+        unchanged = set()
+
+        def on_stmt(bb, si, s, st):
+            if s["d"]["l"] == 0 and not s["d"].get("p") and s["rv"]["k"] == "use":
+                p = op_place(s["rv"]["op"])
+                if p is not None and p["l"] == 1 and not p.get("p"):
+                    v = st.get("_1")
+                    unchanged.update(set(v) - {MOVED} if v is not None else set(pos_fields))
+        vf.run(on_stmt=on_stmt)
+        for vname, pf in sorted(pos_fields.items()):
+            missing = [f for f in pf if f not in shifted.get(vname, set())]
+            d = {"variant": vname, "position_fields": pf, "shifted": sorted(shifted.get(vname, set())), "returned_unchanged": vname in unchanged}
+            ok = not pf or (not missing and vname not in unchanged)
+            chk.instance(rid, d, ok=ok)
+            if not ok:
+                chk.violation(rid, ob.file, OFFSET_BY, "variant %s not shifted" % vname,
+                              "Error::%s carries position field(s) %s that offset_by does not shift: an error from a nested lexer (inside `[..]`, `{..}`, "
+                              "`(..)`) is reported relative to the slice, so its label points at unrelated text" % (vname, missing or pf), detail=d)
+
     rid = "R33b"
     chk.rule(rid, "Formatter::fmt: no unwrap/expect; rendering and UTF-8 errors become fmt::Error", floor=1)
     cands = [n for n in facts.names() if n.startswith("<diagnostic::formatter::Formatter") and n.endswith("::fmt") and "Display" in n]
